@@ -108,6 +108,8 @@ def _open(file, mode='r', buffering=-1, encoding=None, errors=None, newline=None
 			if oe is not None:
 				plan.ctx.fault('open_' + errno.errorcode.get(oe, str(oe)).lower(), file=os.path.basename(ap))
 				raise OSError(oe, os.strerror(oe), os.fspath(file))
+			if spec.get('fifo') is not None:
+				_feed_fifo(ap, spec['fifo'])
 			raw = SimRaw(ap, spec, plan)
 			if buffering == 0:
 				if 'b' not in mode:
@@ -118,6 +120,24 @@ def _open(file, mode='r', buffering=-1, encoding=None, errors=None, newline=None
 				return buf
 			return io.TextIOWrapper(buf, encoding=encoding, errors=errors, newline=newline)
 	return _real_open(file, mode, buffering, encoding, errors, newline, closefd, opener)
+
+
+def _feed_fifo(path, data):
+	"""The other end of a named pipe: a writer that appears when somebody opens the pipe for reading."""
+	import threading
+
+	def feeder():
+		try:
+			fd = os.open(path, os.O_WRONLY)
+			try:
+				off = 0
+				while off < len(data):
+					off += os.write(fd, data[off:off + 65536])
+			finally:
+				os.close(fd)
+		except OSError:
+			pass
+	threading.Thread(target=feeder, daemon=True).start()
 
 
 def install():
